@@ -54,6 +54,8 @@ static CMB_THREAD_LOCAL uint64_t current_event = 0u;
 #define QUEUE_INIT_EXP 3
 
 
+extern void cmi_event_cancel_wakeups(const struct cmb_process *pp);
+
 /* The memory layout of an event */
 struct event_peek {
     cmb_event_func *action;
@@ -515,8 +517,10 @@ void cmi_event_add_waiter(const uint64_t key, struct cmb_process *pp)
 bool cmi_event_remove_waiter(const uint64_t key, const struct cmb_process *pp)
 {
     cmb_assert_release(event_queue != NULL);
-    cmb_assert_release(cmi_hashheap_count(event_queue) > 0u);
-    cmb_assert_release(cmi_hashheap_is_enqueued(event_queue, key));
+    if (!cmi_hashheap_is_enqueued(event_queue, key)) {
+        /* The event has been executed or cancelled already, no list to search */
+        return false;
+    }
 
     struct event_peek *tmp = (struct event_peek *)cmi_hashheap_item(event_queue, key);
     struct cmi_slist_head *whead = &(tmp->waiters);
@@ -535,4 +539,16 @@ bool cmi_event_remove_waiter(const uint64_t key, const struct cmb_process *pp)
     }
 
     return false;
+}
+
+/*
+ * Cancel any pending wakeup of the process from an awaited event that already
+ * has happened, used when the process leaves cmb_process_wait_event for some
+ * other reason in that same instant.
+ */
+void cmi_event_cancel_wakeups(const struct cmb_process *pp)
+{
+    cmb_assert_release(event_queue != NULL);
+
+    (void)cmb_event_pattern_cancel(wakeup_event_event, pp, CMB_ANY_OBJECT);
 }
